@@ -40,15 +40,22 @@ func CreateAVCDecConfRec(spsNalus [][]byte, ppsNalus [][]byte, includePS bool) (
 		return nil, fmt.Errorf("parse SPS nalu: %w", err)
 	}
 
+	// chroma_format and the bit depths (minus 8) of the record are those of the SPS
+	// (ISO/IEC 14496-15 Section 5.3.3.1.2); they are written as 2-bit and 3-bit fields
+	if sps.ChromaFormatIDC > 3 || sps.BitDepthLumaMinus8 > 7 || sps.BitDepthChromaMinus8 > 7 {
+		return nil, fmt.Errorf("SPS chroma_format_idc %d or bit depths minus 8 (%d, %d) do not fit the decoder configuration record",
+			sps.ChromaFormatIDC, sps.BitDepthLumaMinus8, sps.BitDepthChromaMinus8)
+	}
+
 	drc := DecConfRec{
 		AVCProfileIndication: byte(sps.Profile),
 		ProfileCompatibility: byte(sps.ProfileCompatibility),
 		AVCLevelIndication:   byte(sps.Level),
 		SPSnalus:             nil,
 		PPSnalus:             nil,
-		ChromaFormat:         1,
-		BitDepthLumaMinus1:   0,
-		BitDepthChromaMinus1: 0,
+		ChromaFormat:         sps.ChromaFormatIDC,
+		BitDepthLumaMinus1:   byte(sps.BitDepthLumaMinus8),
+		BitDepthChromaMinus1: byte(sps.BitDepthChromaMinus8),
 		NumSPSExt:            0,
 		NoTrailingInfo:       false,
 	}
